@@ -513,7 +513,20 @@ def _run_cell(target, repl, act, exit_path, comp, entry):
                     viol.append(("original-not-restored", {"after": exit_path + " (second activation of the same patcher)", "activation": act}))
             if comp == "sequential":
                 rec3 = Recorder()
-                use(mk(rec3), rec3)
+                first_new = getattr(p, "_c19_new", None)
+                if repl == "callable_obj" and first_new is not None:
+                    # the second fake is DERIVED from the first one (a copy of the object that served as replacement
+                    # a moment ago, reporting to another recorder): whatever the first patch left on it, every
+                    # convention has to reach the copy
+                    import copy
+
+                    derived = copy.copy(first_new)
+                    derived.rec = rec3
+                    p3 = amock.patch(dotted, new=derived) if entry == "patch" else amock.patch.object(owner, name, new=derived)
+                    p3._c19_new = derived
+                else:
+                    p3 = mk(rec3)
+                use(p3, rec3)
                 if not restored():
                     viol.append(("original-not-restored", {"after": exit_path + " (second, sequential patch)", "activation": act}))
     except BaseException as e:
